@@ -231,6 +231,7 @@ func main() {
 	cs := flag.String("c", "0", "translation of X (decimal)")
 	ds := flag.String("d", "0", "translation of Y (decimal)")
 	out := flag.String("out", "rows.json", "output table")
+	hist := flag.Bool("hist", false, "call-history pass only: every operation over the universe, results kept across later calls; no table is written")
 	flag.Parse()
 	c, _ := new(big.Int).SetString(*cs, 10)
 	d, _ := new(big.Int).SetString(*ds, 10)
@@ -446,7 +447,11 @@ func main() {
 					}
 					z = zc
 				}
-				rows = append(rows, mkrow(z, ok, alias, untr))
+				if !*hist {
+					rows = append(rows, mkrow(z, ok, alias, untr))
+				} else if alias {
+					histShared++
+				}
 			}
 		}
 	}
